@@ -110,8 +110,8 @@ Definition s_band_det (self_ : (banded A)) : res (T A) :=
   let* (au_, al_, index_, d_) := decompose_gen false self_ au_ al_ index_ in
   let dd_ := d_ in
   for_ 0 (bn self_) (fun i_ (dd_ : (T A)) =>
-      let* x2 := mget au_ i_ 0 in
-      let dd_ := (mul dd_ x2) in
+      let* x1 := mget au_ i_ 0 in
+      let dd_ := (mul dd_ x1) in
       Ok dd_) dd_.
 
 (* src/banded.rs : impl < T : Clone + Copy + Number + PartialOrd + Signed > Banded < T > :: fn solve *)
@@ -146,17 +146,17 @@ Definition s_band_solve (self_ : (banded A)) (b_ : (list (T A))) : res (list (T 
                        upd x_ j_ (sub x4 (mul x7 xk_))) x_ in
                Ok (x_, l_)) (x_, l_) in
        let l_ := 1 in
-       let* (x_, l_) := for_rev 0 (bn self_) (fun i_ (s16 : ((list (T A)) * nat)) =>
-               let '(x_, l_) := s16 in
+       let* (x_, l_) := for_rev 0 (bn self_) (fun i_ (s14 : ((list (T A)) * nat)) =>
+               let '(x_, l_) := s14 in
                let* dum_ := rd x_ i_ in
                let* dum_ := for_ 1 l_ (fun k_ (dum_ : (T A)) =>
-                       let* x12 := mget au_ i_ k_ in
-                       let* x13 := rd x_ (k_ + i_)%nat in
-                       let dum_ := (sub dum_ (mul x12 x13)) in
+                       let* x10 := mget au_ i_ k_ in
+                       let* x11 := rd x_ (k_ + i_)%nat in
+                       let dum_ := (sub dum_ (mul x10 x11)) in
                        Ok dum_) dum_ in
-               let* x14 := mget au_ i_ 0 in
-               let* q15 := div dum_ x14 in
-               let* x_ := upd x_ i_ q15 in
+               let* x12 := mget au_ i_ 0 in
+               let* q13 := div dum_ x12 in
+               let* x_ := upd x_ i_ q13 in
                let* l_ := if (l_ <? mm_)%nat
                    then (let l_ := (l_ + 1)%nat in
                         Ok l_)
